@@ -245,6 +245,25 @@ fn placements(range: Option<(f64, f64)>, rng: &mut Rng) -> Vec<(&'static str, f6
             if below.is_finite() && above.is_finite() && below < l && above > u {
                 v.push(("both", below, above, Some(true)));
             }
+            // the documented relative tolerance (1e-6 of the bound itself): outside by a tenth of it is accepted, outside
+            // by ten times it is reported - for every carrier
+            for (bound_is_lower, b) in [(true, l), (false, u)] {
+                if b == 0.0 || !(b.abs() * 1e-5).is_normal() {
+                    continue;
+                }
+                let (near, far) = (b.abs() * 1e-7, b.abs() * 1e-5);
+                let (p_near, p_far) = if bound_is_lower { (b - near, b - far) } else { (b + near, b + far) };
+                if !(p_near.is_finite() && p_far.is_finite()) || p_near == b {
+                    continue;
+                }
+                if bound_is_lower {
+                    v.push(("tol-within-lower", p_near, u, Some(false)));
+                    v.push(("tol-beyond-lower", p_far, u, Some(true)));
+                } else {
+                    v.push(("tol-within-upper", l, p_near, Some(false)));
+                    v.push(("tol-beyond-upper", l, p_far, Some(true)));
+                }
+            }
         }
         Some(_) => {
             // range overflowed to infinity in f64: every finite declared limit is inside
